@@ -31,9 +31,13 @@ Inductive case :=
   (* dst; further names that may remain; files present at the start; the
      recorded operations; byte mode (every element is a byte) or chunk mode;
      observed by the harness: length at dst before the first save and after
-     every successful save; in byte mode also the contents. *)
+     every successful save (intended contents where the harness knows them);
+     in byte mode also the contents.  With [ordered = false] (saves started
+     concurrently) the lists are compared as sets of equal size with the same
+     first element. *)
   | CTrace (dst : path) (keep : list path) (ents : list (path * data)) (t : list op)
            (bytes_mode : bool)
+           (ordered : bool)        (* false: concurrent saves, publication order unknown to the harness *)
            (obs_lens : list (option N))
            (obs_versions : list (option data)).
 
@@ -46,13 +50,20 @@ Definition mem_odata (v : option data) (l : list (option data)) := existsb (eqb_
     the model, is one of them. *)
 Definition checks (c : case) : list bool :=
   match c with
-  | CTrace dst keep ents t bm lens vers =>
+  | CTrace dst keep ents t bm ord lens vers =>
       let s := boot ents in
       let av := all_versions s t dst in
       [ trace_safe dst s t;
         no_leftovers (dst :: keep) s t;
-        eqb_list (eqb_option N.eqb) (map (option_map (byte_len bm)) av) lens;
-        (if bm then eqb_list eqb_odata av vers else true);
+        (let al := map (option_map (byte_len bm)) av in
+         if ord then eqb_list (eqb_option N.eqb) al lens
+         else Nat.eqb (length al) (length lens) &&
+              forallb (fun x => existsb (eqb_option N.eqb x) lens) al &&
+              eqb_option N.eqb (hd None al) (hd None lens));
+        (if bm then
+           if ord then eqb_list eqb_odata av vers
+           else forallb (fun v => mem_odata v vers) av && eqb_odata (hd None av) (hd None vers)
+         else true);
         (if bm then forallb (fun v => mem_odata v av) (visible_states s t dst) else true) ]
   end.
 
@@ -65,7 +76,7 @@ Definition mismatches := Base.Run.mismatches case_ok.
     are not a published version. *)
 Definition explain (c : case) :=
   match c with
-  | CTrace dst keep ents t bm lens vers =>
+  | CTrace dst keep ents t bm ord lens vers =>
       let s := boot ents in
       let av := all_versions s t dst in
       (checks c, first_unsafe dst s t 0,
